@@ -534,13 +534,15 @@ def rule_fd_not_merged(rep, units):
             if f.is_lambda or not any(is_call(m, 'renameAtoms') for m in f.walk()) or not any(s_[0] == 'removeRelation' for s_ in sinks_of(f)):
                 continue
             n += 1
-            direct = any(is_call(m, 'getFunctionalDependencies') for m in f.walk())
-            via = [g.name for name, g in fns.items() if g is not f and any(is_call(m, 'getFunctionalDependencies') for m in g.walk())
-                   and any(is_call(m, name) for m in f.walk())]
-            ok = direct or bool(via)
-            rep.ob('R4-choice-relations-never-merged', '%s::%s' % (f.qname.split('::')[-2], f.name), ok, f.where,
-                   '' if ok else 'this transformer replaces relations by equivalent ones without excluding relations that have a choice-domain '
-                   '(the sibling RemoveRelationCopies excludes them): consumers of a merged choice relation see a different relation')
+            for what, preds, why in (('choice', ('getFunctionalDependencies',), 'a choice-domain'),
+                                     ('lattice', ('getIsLattice', 'getAuxiliaryArity'), 'lattice attributes (one least-upper-bound value per key)')):
+                direct = any(is_call(m) and m.get('cn') in preds for m in f.walk())
+                via = [g.name for name, g in fns.items() if g is not f and any(is_call(m) and m.get('cn') in preds for m in g.walk())
+                       and any(is_call(m, name) for m in f.walk())]
+                ok = direct or bool(via)
+                rep.ob('R4-%s-relations-never-merged' % what, '%s::%s' % (f.qname.split('::')[-2], f.name), ok, f.where,
+                       '' if ok else 'this transformer replaces relations by equivalent ones without excluding relations that have %s: consumers of the '
+                       'merged relation see a relation with different semantics' % why)
     rep.floor('R4-merging-transformers', n, 2)
 
 
@@ -627,6 +629,10 @@ def analyse(rep, everything=False):
 
 
 MUTANTS = [
+    ('lattice-relations-aliased-to-source', T + 'RemoveRelationCopies.cpp', '''        if (rel->getAuxiliaryArity() > 0) {
+            continue;
+        }
+''', '', 'R4'),
     ('unnamed-variable-not-registered', 'src/ast/analysis/ClauseNormalisation.cpp', '''        name << "@min:unnamed:" << countUnnamed++;
         variables.insert(name.str());''', '''        name << "@min:unnamed:" << countUnnamed++;''', 'R5'),
     ('choice-relations-merged-by-minimise', T + 'MinimiseProgram.cpp', '''    if (!firstRelation->getFunctionalDependencies().empty() ||
